@@ -193,6 +193,28 @@ pub fn rare_keygen_seeds_mode(ctx: &Ctx, p: &refimpl::Params, n_scan: usize, cte
         out
     });
     let mut all: Vec<RareSeed> = found.into_iter().flatten().collect();
+    // second, much cheaper scan (SHAKE only) for sampler-length events: a RejBoundedPoly call that needs
+    // more than two SHAKE256 blocks (272 bytes; eta = 4 only, about 1 key in 13000) or a RejNTTPoly call
+    // that needs more than five SHAKE128 blocks (840 bytes)
+    let n_cheap = n_scan * 16;
+    let cheap = par_map(shards, |sh| {
+        let mut g = Prng::derive(ctx.seed, &format!("rare-sampler-{}", p.name), sh as u64);
+        let mut out = Vec::new();
+        for _ in 0..n_cheap / shards {
+            let xi = g.arr32();
+            let seed = refimpl::h(&[&xi, &[p.k as u8], &[p.l as u8]], 128);
+            refimpl::events_reset();
+            refimpl::set_ctest(ctest);
+            let _ = refimpl::expand_s(p, &seed[32..96]);
+            refimpl::set_ctest(false);
+            let e = refimpl::events_take();
+            if e.rbp_max_bytes > 272 {
+                out.push(RareSeed { xi, tags: vec!["rbp-over-2-blocks".to_string()] });
+            }
+        }
+        out
+    });
+    all.extend(cheap.into_iter().flatten());
     // keep at most 24 per tag
     let mut per_tag: std::collections::HashMap<String, usize> = std::collections::HashMap::new();
     all.retain(|r| {
